@@ -31,9 +31,10 @@ def _seq(e, base: str, env):
         s = _seq(e.value, base, env)
         lo = _int(e.slice.lower, base, env) if e.slice.lower is not None else None
         hi = _int(e.slice.upper, base, env) if e.slice.upper is not None else None
-        if e.slice.step is not None:
+        st = _int(e.slice.step, base, env) if e.slice.step is not None else None
+        if st == 0:
             raise Unsupported(txt)
-        return s[lo:hi]
+        return s[lo:hi:st]
     if isinstance(e, ast.Call):
         f = e.func
         name = f.id if isinstance(f, ast.Name) else (f.attr if isinstance(f, ast.Attribute) else None)
